@@ -91,3 +91,33 @@ Proof.
   rewrite Forall_forall in F. destruct (F oe Hin) as [_ K]. exact K.
 Qed.
 Print Assumptions c05_lengths_after_resume.
+
+(* Step bound: a sprint adds at most max(0, MaxStepsPerSprint) steps to the paths of the session, counted
+   across all runs (not per run, and not restarted when a sub-flow is entered), for every flow graph.
+   [tot s] = total number of steps in the paths of all runs of s. *)
+From Verif Require Import proofs.EngineSteps.
+
+Theorem c05_step_bound_start : forall (a : assets) (t : trigger) (flow : id) (x' : st),
+  start a t flow = ROk x' -> (Z.of_nat (tot (session_ x')) <= Z.max 0 (max_steps (a_opts a)))%Z.
+Proof. exact start_step_bound. Qed.
+Print Assumptions c05_step_bound_start.
+
+Theorem c05_step_bound_resume : forall (a : assets) (s : session) (r : resume) (tmo : text) (x' : st),
+  reachable s -> resume_session a s r tmo = Resumed (ROk x') ->
+  (Z.of_nat (tot (session_ x')) <= Z.of_nat (tot s) + Z.max 0 (max_steps (a_opts a)))%Z.
+Proof. exact reachable_resume_step_bound. Qed.
+Print Assumptions c05_step_bound_resume.
+
+(* Hitting the limit: in the iteration in which the counter exceeds the limit the model fails the
+   current run with a failure event (goto_node: `fail_run x ci (l_step l) FStepLimit`); from then on
+   ([hit]: the counter is above the limit) the loop can only end with a FAILED session - never with a Go
+   error, never with a panic (out of fuel is excluded by c05_*_terminates). *)
+Theorem c05_limit_ends_failed : forall (a : assets) (t0 fuel : nat) (x : st) (l : lstate),
+  step_inv a t0 x l -> hit a l ->
+  match continue_until_wait fuel a x l with
+  | ROk x' => s_status (session_ x') = SFailed
+  | ROutOfFuel => True
+  | _ => False
+  end.
+Proof. exact cuw_hit_ends_failed. Qed.
+Print Assumptions c05_limit_ends_failed.
